@@ -20,19 +20,6 @@ import (
 var decoders = []dials.Decoder{&djson.Decoder{}, &dyaml.Decoder{}, &dtoml.Decoder{}, &dcue.Decoder{}}
 var fmtNames = []string{"json", "yaml", "toml", "cue"}
 
-func render(f int, d *doc) string {
-	switch f {
-	case 0:
-		return toJSON(d)
-	case 1:
-		return toYAML(d, 0)
-	case 2:
-		return renderTOML(d)
-	default:
-		return toCue(d, true)
-	}
-}
-
 func decodeSafe(f int, text string, PT reflect.Type) (v reflect.Value, err error, panicked bool) {
 	defer func() {
 		if r := recover(); r != nil {
@@ -86,7 +73,7 @@ func demo() {
 		dM(kv{"m", dM(kv{"k", dS("v")})}),
 	}
 	for _, d := range docs {
-		fmt.Println("== doc", d.term())
+		fmt.Println("== doc", d.Term())
 		for f := range decoders {
 			text := render(f, d)
 			v, err, p := decodeSafe(f, text, PT)
